@@ -140,6 +140,19 @@ def _use(root):
                 os.environ[k] = v
 
 
+def _copy_state(state):
+    """Deep copy of an engine state. The stage caches living in the state hold thread locks; a copy gets fresh locks
+    (registered once per worker process) so that the twin world starts from the same cache contents as the ON world."""
+    import copyreg
+    import threading
+
+    for mk in (threading.RLock, threading.Lock):
+        tp = type(mk())
+        if tp not in copyreg.dispatch_table:
+            copyreg.pickle(tp, (lambda mk_: (lambda _l: (mk_, ())))(mk))
+    return copy.deepcopy(state)
+
+
 def _subroot(base, name):
     r = os.path.join(base, name)
     for s in ("logs", "snap", "cwd", "fx"):
@@ -213,7 +226,7 @@ def _turn(draw):
     t.update(_knobs(draw))
     # one focused scenario per turn (plus a "chaos" scenario drawing every fault independently)
     sc = draw(st.sampled_from(["plain", "plain", "plain", "plain", "raise", "fake", "fake", "timeout", "write", "write", "tele",
-                               "fixture", "chaos"]))
+                               "fixture", "noindex", "embed", "chaos"]))
     chaos = sc == "chaos"
     if sc == "fixture":
         t["backend"] = "llm"
@@ -236,6 +249,11 @@ def _turn(draw):
                   if (sc == "write" or (chaos and draw(st.booleans()))) else None)
     if t["write"] is not None and not chaos and not any(t["write"]["pattern"]):
         t["write"]["pattern"][0] = True
+    if sc == "noindex":
+        t["write"] = {"noindex": True}  # the state carries no memory_index for the writer
+    t["embedfault"] = draw(st.sampled_from(EXC_NAMES[:7])) if sc == "embed" else None
+    if sc == "embed":
+        t["embed"] = True
     t["tele"] = (draw(st.fixed_dictionaries({"site": st.sampled_from(["inner", "outer", "deep"]), "exc": st.sampled_from(EXC_NAMES[:7])}))
                  if (sc == "tele" or (chaos and draw(st.booleans()))) else None)
     t["fixture"] = (draw(st.sampled_from(["absent", "empty", "garbage", "other", "blank"])) if sc == "fixture" else
@@ -363,7 +381,11 @@ def _run(eng, t, i, allow, faults, spy_compute, record_prompts=None, clock_base=
                 record_prompts.append(prompt)
                 return orig_gen(self, prompt, max_tokens=max_tokens, temperature=temperature)
             stack.enter_context(_patched(llm.FixtureLLMAdapter, "generate", gen))
-        if faults and t.get("write"):
+        if faults and t.get("write") and t["write"].get("noindex"):
+            saved_idx = eng.state.pop("memory_index")
+            obs["noindex"] = True
+            stack.callback(lambda: eng.state.__setitem__("memory_index", saved_idx))
+        elif faults and t.get("write"):
             wexc = _exc_types()[t["write"]["exc"]]
             pat = t["write"]["pattern"]
             real_add = type(idx).add
@@ -378,6 +400,14 @@ def _run(eng, t, i, allow, faults, spy_compute, record_prompts=None, clock_base=
                 obs["add_ok"] += 1
             idx.add = add
             stack.callback(lambda: idx.__dict__.pop("add", None))
+        if faults and t.get("embedfault"):
+            eexc = _exc_types()[t["embedfault"]]
+
+            class _BadEmbed:
+                def encode(self, texts):
+                    obs["embed_hits"] = obs.get("embed_hits", 0) + 1
+                    raise eexc("injected embedding failure")
+            stack.enter_context(_patched(reflmod, "_EMBED_ADAPTER", _BadEmbed()))
         if faults and t.get("tele"):
             texc = _exc_types()[t["tele"]["exc"]]
             site = t["tele"]["site"]
@@ -490,16 +520,16 @@ def check_turns(case, rec=None):
             else:
                 on.state.pop("_planner_reflection_flag", None)
             gate_open = bool(t["allow"] and t["flag"] != "none" and not t["dry"])
-            pre = copy.deepcopy(on.state)
+            pre = _copy_state(on.state)
             # --- twin: the same turn from the same pre-state with reflection off
-            tw.state = copy.deepcopy(pre)
+            tw.state = _copy_state(pre)
             otw = _run(tw, t, i, allow=False, faults=False, spy_compute=None)
             if otw["exc"] is None:
                 _closed_gate_oracle(otw, where + " (twin, allow_reflection=false)", case, ever_open=False)
             # --- llm recording pre-pass (empty fixture file): learns the prompt hash, is itself a missing-fixture case
             learnt = None
             if gate_open and t["backend"] == "llm" and t["compute"]["mode"] != "fake" and otw["exc"] is None:
-                pp.state = copy.deepcopy(pre)
+                pp.state = _copy_state(pre)
                 open(os.path.join(pp.root, "fx", "fixtures.jsonl"), "w").close()
                 prompts = []
                 opp = _run(pp, t, i, allow=True, faults=False, spy_compute=None, record_prompts=prompts)
@@ -562,7 +592,8 @@ def check_turns(case, rec=None):
                 _open_gate_oracle(oon, t, where, case, expect_nothing, why)
                 n_new = len(oon["new"])
                 injected = (c["mode"] == "raise" or (t["backend"] == "llm" and c["mode"] == "real" and not fixture_ok) or timeout
-                            or (t["write"] is not None and oon["add_calls"] > 0) or (t["tele"] is not None and oon["tele_hits"] > 0))
+                            or (t["write"] is not None and (oon["add_calls"] > 0 or oon.get("noindex"))) or (t["tele"] is not None and oon["tele_hits"] > 0)
+                            or oon.get("embed_hits", 0) > 0)
                 wrote_text = any(e[2] for e in oon["new"])
                 if wrote_text or (injected and spy.calls > 0):
                     nontrivial = True
@@ -587,6 +618,12 @@ def check_turns(case, rec=None):
                     tl.append("clock=just-under-budget")
                 if t["write"] is not None and oon["add_calls"]:
                     tl.append("fault=write" + (":partial" if oon["add_ok"] else ""))
+                if oon.get("noindex"):
+                    tl.append("fault=write:no-index")
+                    if n_new:
+                        raise Violation(f"{where}: state has no memory_index but {n_new} entries appeared", case, "wrote-without-index")
+                if oon.get("embed_hits"):
+                    tl.append("fault=embedding")
                 if t["tele"] is not None and oon["tele_hits"]:
                     tl.append("fault=telemetry:" + t["tele"]["site"])
                 if t["kill"]:
@@ -594,7 +631,7 @@ def check_turns(case, rec=None):
             labels.extend(tl)
     if rec is not None:
         rec.case(nontrivial=nontrivial, dig=digest(case) if nontrivial else None, labels=sorted(set(labels)),
-                 sample=({"turns": [{k: t[k] for k in ("allow", "flag", "dry", "backend", "tokens", "ops", "compute", "jump", "write", "tele")}
+                 sample=({"turns": [{k: t[k] for k in ("allow", "flag", "dry", "backend", "tokens", "ops", "compute", "jump", "write", "tele", "embedfault")}
                                     for t in case["turns"]]} if nontrivial else None))
 
 
@@ -808,10 +845,10 @@ def sub_unit(rec, seed, shard, nshards, n=300, shrink=True):
 
 
 SUBCHECKS = [
-    Sub("turns", sub_turns, quick={"n": 130}, thorough={"n": 900}, shards_quick=4, shards_thorough=16,
+    Sub("turns", sub_turns, quick={"n": 130}, thorough={"n": 1500}, shards_quick=4, shards_thorough=16,
         replay=lambda c: check_turns(c, None)),
-    Sub("purity", sub_purity, quick={"n": 40}, thorough={"n": 400}, shards_quick=2, shards_thorough=8,
+    Sub("purity", sub_purity, quick={"n": 40}, thorough={"n": 500}, shards_quick=2, shards_thorough=8,
         replay=lambda c: check_purity(c, None)),
-    Sub("unit", sub_unit, quick={"n": 300}, thorough={"n": 4000}, shards_quick=2, shards_thorough=8,
+    Sub("unit", sub_unit, quick={"n": 300}, thorough={"n": 5000}, shards_quick=2, shards_thorough=8,
         replay=lambda c: check_unit(c, None)),
 ]
